@@ -364,6 +364,9 @@ def rule_overflow_all(prog):
         if not const and isinstance(a, dict) and "l" in a:
             d = f.single_def(a["l"])
             const = bool(d and d[2] == "assign" and d[3]["k"] == "use" and is_const(d[3]["a"]))
+            # the slot written as a value of a small enum: `WaitingSlot::Extra(0)` - an aggregate of constants is a constant
+            if d and d[2] == "assign" and d[3]["k"] == "agg" and all(is_const(o) for o in d[3].get("ops", [])):
+                const = True
         ok = const or bi not in inloop
         res.inst("waiting_into_hold%s" % ("#%d" % (n - 1) if n > 1 else ""), where="%s:%s" % (f.file, t.get("ln")), in_loop=bi in inloop,
                  constant_index=const, ok=ok)
